@@ -269,3 +269,22 @@ Example C14_two_saves_premises :
   In ([Open 3 2 fl_tmp; Open 4 5 fl_tmp; Write 4 [7]; Write 3 [4; 5]; Fsync 4; Fsync 3; Close 3; Rename 2 1; Close 4; Rename 5 1])
      (interleavings (atomic_shape 3 2 1 [[4; 5]]) (atomic_shape 4 5 1 [[7]])).
 Proof. exact two_saves_premises. Qed.
+
+Example C14_round2_premises :
+  let s := boot [(1, [1; 2])] in
+  let t1 := atomic_shape 5 2 1 [[3]; [4]] in
+  let o := Open 6 3 fl_tmp in
+  let t2 := [Write 6 [9]; Fsync 6; Close 6; Rename 3 1] in
+  (quiescent s 1 /\ trace_safe 1 s (t1 ++ o :: t2) = true /\ live_view s 1 <> None /\
+   versions s t1 1 <> [] /\ ever_at (run s t1) 1 2 = true /\
+   live_view (run s t1) 1 = Some [3; 4] /\ dst_stays 1 s (t1 ++ o :: t2) = true) /\
+  (let s' := run s t1 in
+   aget (dir_cur s') 1 = Some 2 /\ ever_at s' 1 2 = true /\
+   trace_safe 1 s' [Open 7 1 fl_trunc] = false) /\
+  (let s'' := run s [Open 5 2 fl_tmp; Write 5 [3]; Fsync 5; Rename 2 1] in
+   exists e, aget (fds s'') 5 = Some e /\ ever_at s'' 1 (fd_ino e) = true /\
+             trace_safe 1 s'' [Write 5 [4]] = false) /\
+  (let s3 := run s [Open 5 2 fl_tmp; Write 5 [3]] in
+   2 <> 1 /\ aget (dir_cur s3) 2 = Some 2 /\ f_pend (file_of s3 2) <> [] /\
+   trace_safe 1 s3 [Rename 2 1] = false).
+Proof. exact round2_premises. Qed.
